@@ -136,6 +136,18 @@ class RuntimeContract:
         olds_r = [ex.eval_olds(old_env) for _, ex in self.returns]
         exc: Optional[BaseException] = None
         result = None
+        # ghost rng: record what the OS generator hands out during this call (spsdk.crypto.rng is the only entry point)
+        import spsdk.crypto.rng as _rng
+
+        del api.RNG_RECORDER[:]
+        _orig_tb = _rng.token_bytes
+
+        def _rec(n: int = 32) -> bytes:
+            b = _orig_tb(n)
+            api.RNG_RECORDER.append(b)
+            return b
+
+        _rng.token_bytes = _rec
         try:
             fn = self._callable()
             if timeout_s is not None:
@@ -148,6 +160,8 @@ class RuntimeContract:
             return rep
         except Exception as e:  # pylint: disable=broad-except
             exc = e
+        finally:
+            _rng.token_bytes = _orig_tb
         if exc is not None:
             rep["outcome"] = f"raised {type(exc).__name__}: {str(exc)[:120]}"
             matched = [(l, c, w) for (l, c, w) in whens if isinstance(exc, c)]
